@@ -715,3 +715,35 @@ Section Layering.
     unfold name_kind_match. rewrite O1. reflexivity.
   Qed.
 End Layering.
+
+(* non-vacuity of the layering lemma: a ConfigMap and a Pod mounting it, one layer with namePrefix p- *)
+Definition ex_prov : list (resource * list rename_step) :=
+  [ (fresh (doc "v1" "ConfigMap" "cm" []), [SPrefix "p-"]);
+    (fresh (doc "v1" "Pod" "pod" [("spec", Map [("volumes", Seq [Map [("configMap", Map [("name", sc "cm")])]])])]),
+     [SPrefix "p-"]) ].
+Definition ex_prov_out : list resource :=
+  map (fun p => match gen_apply_steps no_cs no_nonstr (snd p) (fst p) with Ok r => r | _ => fst p end) ex_prov.
+
+Lemma wf_fresh_doc av kind name extra :
+  good name = true -> good kind = true ->
+  wf_res (fresh (doc av kind name extra)).
+Proof.
+  intros Hn Hk. split; [exact I|].
+  exists ([("apiVersion", sc av); ("kind", sc kind); ("metadata", Map [("name", sc name)])] ++ extra)%list,
+         [("name", sc name)], TStr, SPlain, name, (sc kind).
+  repeat split; try reflexivity; try assumption. discriminate.
+Qed.
+
+Example layering_nonvacuous :
+  Forall2 (produced no_cs no_nonstr) ex_prov ex_prov_out /\
+  (exists C b, mapM (view no_cs) ex_prov_out = Ok C /\ nth_error C 0 = Some b /\ c_name b = "p-cm" /\
+     forall k p, k <> 0 -> nth_error ex_prov k = Some p ->
+                 may_have_been p "cm" = false /\ may_have_been p (c_name b) = false).
+Proof.
+  split.
+  - repeat constructor; cbn [fst snd]; try (apply wf_fresh_doc; reflexivity); vm_compute; reflexivity.
+  - exists (unres (mapM (view no_cs) ex_prov_out)), (nth 0 (unres (mapM (view no_cs) ex_prov_out)) ex_cand0).
+    split; [vm_compute; reflexivity|]. split; [vm_compute; reflexivity|]. split; [vm_compute; reflexivity|].
+    intros [|[|k]] p Hk Hp; [contradiction| |destruct k; discriminate].
+    cbn in Hp. inv Hp. split; vm_compute; reflexivity.
+Qed.
